@@ -195,7 +195,7 @@ def epoch_spec(prop, tier):
     if prop == "C04":
         if q:
             return [ep(1, ("pin1", "recycle", "recreate", "gen1s"), -1), ep(1, ("reuse", "twomgr"), 3), ep(2, ("pin1",), -1), ep(2, ("pin2", "reuse"), 2)]
-        return [ep(1, ("pin1", "recycle", "recreate", "gen1"), -1, 900, 600), ep(1, ("reuse",), 6, 600, 600), ep(2, ("pin1", "recycle"), -1, 900, 900),
+        return [ep(1, ("pin1", "recycle", "recreate", "gen1", "genR"), -1, 900, 600), ep(1, ("reuse",), 6, 600, 600), ep(2, ("pin1", "recycle"), -1, 900, 900),
                 ep(2, ("pin2", "public", "gen2"), 4, 900, 900), ep(2, ("reuse",), 3, 900, 900), ep(3, ("pin2", "public"), 3, 600, 600)]
     if prop == "C16":
         if q:
@@ -207,7 +207,7 @@ def epoch_spec(prop, tier):
     if prop == "C17":
         if q:
             return [ep(1, ("list1", "gen1s"), -1), ep(1, ("recycle17",), 3), ep(2, ("list1", "list2"), 2)]
-        return [ep(1, ("list1", "gen1"), -1, 900, 600), ep(1, ("recycle17",), -1, 600, 600), ep(2, ("recycle17",), 4, 600, 600), ep(2, ("list1",), -1, 900, 900), ep(2, ("list2", "public", "gen2"), 3, 900, 900),
+        return [ep(1, ("list1", "gen1"), -1, 900, 600), ep(1, ("recycle17", "genR"), -1, 600, 600), ep(2, ("recycle17",), 4, 600, 600), ep(2, ("list1",), -1, 900, 900), ep(2, ("list2", "public", "gen2"), 3, 900, 900),
                 ep(3, ("list1", "list2"), 3, 600, 600)]
     if prop == "C20":
         if q:
